@@ -51,6 +51,9 @@ def main(argv):
 
     prop, ob_id, tier = argv
     t0 = time.perf_counter()
+    from vf import srcxform
+
+    srcxform.install()  # symbolic runs only: diagnostic message formatting elided (see srcxform.DESCRIPTION)
     try:
         o = _find(prop, ob_id, tier)
         res = o["run"](tier)
@@ -58,6 +61,10 @@ def main(argv):
         res = {"verdict": "inconclusive", "detail": "harness error: " + "".join(traceback.format_exception(e))[-1500:]}
     res["id"] = ob_id
     res["wall_s"] = round(time.perf_counter() - t0, 2)
+    if res.get("engine") == "xh":
+        res.setdefault("stubs", [])
+        res["stubs"] = list(res["stubs"]) + [srcxform.DESCRIPTION]
+        res["srcxform_sites"] = dict(srcxform.COUNTS)
     print("RESULT " + json.dumps(res, ensure_ascii=False, default=str))
     return 0
 
